@@ -26,6 +26,7 @@ Readings adopted where the statement leaves room
 """
 from __future__ import annotations
 
+import functools
 import json
 import time
 from typing import Any
@@ -187,15 +188,23 @@ def _c_batch(ident: int, m: dict[str, Any]) -> str:
     return f"(mk_batch {ident} {m['rows']} {m['nbytes']} {cbool(m['dict'])} {m['msg']} {m['ser']} [{m['stream']}])"
 
 
+@functools.lru_cache(maxsize=4096)
+def _spec_info(shape: str, n: int, tag: int) -> tuple[str, dict[str, Any], dict[str, Any]]:
+    """(content key, Arrow's numbers, Arrow's numbers of the refused variant) of the batch a spec stands for."""
+    from harness import c29_driver as d
+
+    b = d.make_batch(shape, n, tag)
+    bad = b.rename_columns([f"not_{x}" for x in b.schema.names]) if b.num_columns else b
+    return d.content_key(b), d.measure(b), d.measure(bad)
+
+
 def model_history(history: list[Any], ids: _Ids) -> str:
     from harness import c29_driver as d
     from vlib.coqterm import cbool
 
     def spec_batch(sp: list[Any], bad: bool = False) -> str:
-        b = d.make_batch(*sp)
-        if bad:
-            return _c_batch(0, d.measure(b.rename_columns([f"not_{n}" for n in b.schema.names])))
-        return _c_batch(ids.of(d.content_key(b)), d.measure(b))
+        key, m, m_bad = _spec_info(*sp)
+        return _c_batch(0, m_bad) if bad else _c_batch(ids.of(key), m)
 
     calls = []
     for kind, arg in history:
@@ -248,10 +257,107 @@ def _features(call: list[Any]) -> set[str]:
     return f
 
 
-def run(ctx: Any) -> None:
+def check_scenario(ctx: Any, sc: dict[str, Any], flags: tuple[bool, bool, bool], leaks_seen: dict[str, int]) -> tuple[tuple[str, str], dict[str, Any]] | None:
+    """Run one history on the real shm-pipe and on a plain pipe, apply the oracle, return the model case."""
     from harness import c29_driver as d
+
+    bflags = "(" + ", ".join("true" if x else "false" for x in flags) + ")"
+    hist, seg, thresh = sc["history"], sc["seg"], sc["thresh"]
+    replay = {"scenario": sc["name"], "history": hist, "seg_size": seg, "thresh": thresh}
+    a = d.run_history(hist, use_shm=True, seg_size=seg, thresh=thresh)
+    b = d.run_history(hist, use_shm=False, thresh=thresh)
+    used = any(c["table"] for c in a["calls"])
+    ctx.case([sc["name"], hist, seg, thresh], nontrivial=used or any(kind != "release" for kind, _ in hist))
+    ctx.tally("segment", seg)
+    ctx.tally("threshold", thresh)
+    ctx.tally("calls", len(hist))
+    ctx.count("calls", len(hist))
+    for kind, arg in hist:
+        ctx.tally("call_kind", kind if kind != "stream" else ("producer" if arg["in"] is None else "exchange"))
+    for r, nm in ((a, "shm"), (b, "pipe")):
+        if r["hang"] or r["server_died"] or r.get("client_exc") or len(r["calls"]) != len(hist):
+            ctx.violation("session-broke-on-" + nm, f"history did not complete over {nm}: hang={r['hang']} ({r.get('hang_detail')}) server={r['server_died']} client={r.get('client_exc')}", replay)
+    if len(a["calls"]) != len(hist) or len(b["calls"]) != len(hist):
+        return None
+    # --- oracle: transparency (same observations as the inline run) ---
+    for ci, (ca, cb) in enumerate(zip(a["calls"], b["calls"])):
+        if ca["trace"] != cb["trace"] or ca["server"] != cb["server"] or ca["deliveries"] != cb["deliveries"]:
+            ctx.violation(
+                "shm-observations-differ-from-inline",
+                "client trace / batches at the server differ between shm-pipe and plain pipe",
+                {**replay, "call": ci, "shm": json.dumps([ca["trace"], ca["server"]])[:600], "pipe": json.dumps([cb["trace"], cb["server"]])[:600]},
+            )
+            break
+    # --- oracle: nothing referenced is reused ---
+    if a["stale"]:
+        ctx.violation("held-batch-changed-while-unreleased", "a batch the caller still holds no longer reads as on arrival", {**replay, "stale": a["stale"][:3]})
+    # --- oracle: region accounting ---
+    excess_prev = 0
+    for ci, ca in enumerate(a["calls"]):
+        excess = len(ca["table"]) - ca["held_shm"]
+        if excess < 0:
+            ctx.violation("held-batch-region-not-live", "a batch the caller holds has no live region", {**replay, "call": ci, "table": ca["table"]})
+        if excess > excess_prev:
+            feats = _features(hist[ci])
+            key = KEY_COERCE if "bad-input" in feats else KEY_SDRAIN if "stream-exclog" in feats else KEY_UDRAIN if "unary-exclog" in feats else KEY_SDRAIN_CB if "stream-cb" in feats else KEY_UDRAIN_CB if "unary-cb" in feats else "region-leak-unclassified"
+            leaks_seen[key] = leaks_seen.get(key, 0) + 1
+            ctx.violation(key, f"after call {ci} the segment has {len(ca['table'])} live regions but the caller holds {ca['held_shm']} shm batches", {**replay, "call": ci, "table": ca["table"]})
+        excess_prev = max(excess, excess_prev)
+    if a["final_table"] and excess_prev == 0:
+        ctx.violation("regions-live-after-releasing-everything", "the caller released every batch, the table is not empty", {**replay, "table": a["final_table"]})
+    for ca in a["calls"]:
+        ctx.tally("live_after_call", min(len(ca["table"]), 6))
+    # --- model case ---
+    ids = _Ids()
+    mh = model_history(hist, ids)
+    outs = []
+    for ca in a["calls"]:
+        dl = "[" + "; ".join(f"({c}, {ids.seen(k)})" for c, k in ca["deliveries"]) + "]"
+        outs.append(f"({dl}, {c_table(ca['table'])}, 0)")
+    return (f"({bflags}, {a['total']}, {thresh}, {mh})", "[" + ";\n ".join(outs) + "]"), replay
+
+
+def correspond(ctx: Any, cases: list[tuple[str, str]], keys: list[dict[str, Any]]) -> None:
+    ok, bad, clog = ctx.coq_mismatches(HDR, "run_case", OUT_EQB, cases, "(bool * bool * bool) * N * N * list call", "list (list (N * N) * table * N)", shard=25)
+    ctx.count("model_cases", len(cases))
+    ctx.obligation("correspondence:M_ShmXfer.run_case", "correspondence", ok and not bad, clog if not ok else f"{len(bad)} of {len(cases)} histories disagree")
+    for i in bad[:3]:
+        ctx.violation("model-impl-disagree-history", "real shm-pipe and model differ (deliveries / allocation table after a call)", {**keys[i], "impl": cases[i][1][:1500], "model": ctx.coq_show(HDR, f"run_case {cases[i][0]}")[-1500:]})
+
+
+def source_flags(ctx: Any) -> tuple[bool, bool, bool]:
     from translate import t_c29_src
     from vlib.core import TranslationBroken
+
+    try:
+        return t_c29_src.flags(ctx.repo)
+    except TranslationBroken:
+        # translation broken: the correspondence runs the model with the as-found shapes, so histories through a
+        # repaired site then disagree (model predicts the leak) -- the translate obligation is the one to look at
+        ctx.notes.append("source-shape flags could not be read; model run with (false, false, false)")
+        return (False, False, False)
+
+
+def replay(ctx: Any, data: dict[str, Any]) -> None:
+    """Re-run exactly the recorded history (./check C29 --replay PATH): real shm-pipe + plain pipe, oracle, model."""
+    translate(ctx)
+    ctx.prove(["prop/P_C29.vo"], {})
+    r = data.get("replay", data)
+    if "history" not in r:  # e.g. an interpreter-script replay: nothing history-shaped to re-run
+        ctx.notes.append("replay has no history; running the whole check instead")
+        run(ctx)
+        return
+    sc = {"name": r.get("scenario", "replay"), "history": r["history"], "seg": int(r.get("seg_size", 1 << 20)), "thresh": int(r.get("thresh", 1))}
+    leaks: dict[str, int] = {}
+    got = check_scenario(ctx, sc, source_flags(ctx), leaks)
+    ctx.log(f"replayed {sc['name']}: {len(sc['history'])} calls, leaks seen: {leaks}, violations so far: {[v['key'] for v in ctx.violations]}")
+    if got is not None:
+        correspond(ctx, [got[0]], [got[1]])
+    ctx.rule = "replay of one recorded history"
+
+
+def run(ctx: Any) -> None:
+    from harness import c29_driver as d
 
     translate(ctx)
     ctx.prove(
@@ -265,13 +371,7 @@ def run(ctx: Any) -> None:
         },
     )
     ctx.prove(["tie/T_ShmXfer.vo"], {"T_ShmXfer": ["skip_guard_tie", "flags_tie", "C29_source_no_leak", "C29_source_transparent"]})
-    try:
-        flags = t_c29_src.flags(ctx.repo)
-    except TranslationBroken:
-        # translation broken: the correspondence below runs the model with the as-found shapes, so histories through
-        # a repaired site then disagree (model predicts the leak) -- the translate obligation is the one to look at
-        flags = (False, False, False)
-        ctx.notes.append("source-shape flags could not be read; model run with (false, false, false)")
+    flags = source_flags(ctx)
     ctx.tally("source_flags", str(flags))
     quick = ctx.tier == "quick"
     rng = ctx.rng
@@ -290,6 +390,8 @@ def run(ctx: Any) -> None:
             return counter[0] % 100
 
         n_calls = 20 if k % 10 == 0 else rng.randint(1, 9)
+        if thresh >= 100000:
+            n_calls = min(n_calls, 8)  # batches around the default threshold are 128-256 Ki rows: keep these short
         faults = k % 3 == 0
         scenarios.append({"name": f"random-{k}", "history": [gen_call(rng, thresh, tagger, faults) for _ in range(n_calls)], "seg": seg, "thresh": thresh})
 
@@ -303,72 +405,17 @@ def run(ctx: Any) -> None:
     cases: list[tuple[str, str]] = []
     keys: list[dict[str, Any]] = []
     leaks_seen: dict[str, int] = {}
-    bflags = "(" + ", ".join("true" if x else "false" for x in flags) + ")"
     for sc in scenarios:
-        hist, seg, thresh = sc["history"], sc["seg"], sc["thresh"]
-        replay = {"scenario": sc["name"], "history": hist, "seg_size": seg, "thresh": thresh}
         t_sc = time.time()
-        a = d.run_history(hist, use_shm=True, seg_size=seg, thresh=thresh)
-        b = d.run_history(hist, use_shm=False, thresh=thresh)
-        used = any(c["table"] for c in a["calls"])
-        ctx.case([sc["name"], hist, seg, thresh], nontrivial=used or any(kind != "release" for kind, _ in hist))
-        ctx.tally("segment", seg)
-        ctx.tally("threshold", thresh)
-        ctx.tally("calls", len(hist))
-        ctx.count("calls", len(hist))
-        for kind, arg in hist:
-            ctx.tally("call_kind", kind if kind != "stream" else ("producer" if arg["in"] is None else "exchange"))
-        for r, nm in ((a, "shm"), (b, "pipe")):
-            if r["hang"] or r["server_died"] or r.get("client_exc") or len(r["calls"]) != len(hist):
-                ctx.violation("session-broke-on-" + nm, f"history did not complete over {nm}: hang={r['hang']} server={r['server_died']} client={r.get('client_exc')}", replay)
-        if len(a["calls"]) != len(hist) or len(b["calls"]) != len(hist):
-            continue
-        # --- oracle: transparency (same observations as the inline run) ---
-        for ci, (ca, cb) in enumerate(zip(a["calls"], b["calls"])):
-            if ca["trace"] != cb["trace"] or ca["server"] != cb["server"] or ca["deliveries"] != cb["deliveries"]:
-                ctx.violation(
-                    "shm-observations-differ-from-inline",
-                    "client trace / batches at the server differ between shm-pipe and plain pipe",
-                    {**replay, "call": ci, "shm": json.dumps([ca["trace"], ca["server"]])[:600], "pipe": json.dumps([cb["trace"], cb["server"]])[:600]},
-                )
-                break
-        # --- oracle: nothing referenced is reused ---
-        if a["stale"]:
-            ctx.violation("held-batch-changed-while-unreleased", "a batch the caller still holds no longer reads as on arrival", {**replay, "stale": a["stale"][:3]})
-        # --- oracle: region accounting ---
-        excess_prev = 0
-        for ci, ca in enumerate(a["calls"]):
-            excess = len(ca["table"]) - ca["held_shm"]
-            if excess < 0:
-                ctx.violation("held-batch-region-not-live", "a batch the caller holds has no live region", {**replay, "call": ci, "table": ca["table"]})
-            if excess > excess_prev:
-                feats = _features(hist[ci])
-                key = KEY_COERCE if "bad-input" in feats else KEY_SDRAIN if "stream-exclog" in feats else KEY_UDRAIN if "unary-exclog" in feats else KEY_SDRAIN_CB if "stream-cb" in feats else KEY_UDRAIN_CB if "unary-cb" in feats else "region-leak-unclassified"
-                leaks_seen[key] = leaks_seen.get(key, 0) + 1
-                ctx.violation(key, f"after call {ci} the segment has {len(ca['table'])} live regions but the caller holds {ca['held_shm']} shm batches", {**replay, "call": ci, "table": ca["table"]})
-            excess_prev = max(excess, excess_prev)
-        if a["final_table"] and excess_prev == 0:
-            ctx.violation("regions-live-after-releasing-everything", "the caller released every batch, the table is not empty", {**replay, "table": a["final_table"]})
-        for ca in a["calls"]:
-            ctx.tally("live_after_call", min(len(ca["table"]), 6))
-        # --- model case ---
-        ids = _Ids()
-        mh = model_history(hist, ids)
-        outs = []
-        for ca in a["calls"]:
-            dl = "[" + "; ".join(f"({c}, {ids.seen(k)})" for c, k in ca["deliveries"]) + "]"
-            outs.append(f"({dl}, {c_table(ca['table'])}, 0)")
-        cases.append((f"({bflags}, {a['total']}, {thresh}, {mh})", "[" + ";\n ".join(outs) + "]"))
-        keys.append(replay)
-        if time.time() - t_sc > 15:
+        got = check_scenario(ctx, sc, flags, leaks_seen)
+        if got is not None:
+            cases.append(got[0])
+            keys.append(got[1])
+        if time.time() - t_sc > 30:
             ctx.log(f"slow scenario {sc['name']}: {time.time() - t_sc:.1f}s")
     ctx.sample({"scenario": scenarios[0]["name"], "history": scenarios[0]["history"]})
     ctx.log(f"{len(cases)} histories run on shm-pipe and pipe; leaks seen: {leaks_seen}")
-    ok, bad, clog = ctx.coq_mismatches(HDR, "run_case", OUT_EQB, cases, "(bool * bool * bool) * N * N * list call", f"list (list (N * N) * table * N)", shard=25)
-    ctx.count("model_cases", len(cases))
-    ctx.obligation("correspondence:M_ShmXfer.run_case", "correspondence", ok and not bad, clog if not ok else f"{len(bad)} of {len(cases)} histories disagree")
-    for i in bad[:3]:
-        ctx.violation("model-impl-disagree-history", "real shm-pipe and model differ (deliveries / allocation table after a call)", {**keys[i], "impl": cases[i][1][:1500], "model": ctx.coq_show(HDR, f"run_case {cases[i][0]}")[-1500:]})
+    correspond(ctx, cases, keys)
 
     # ---- wire-core leg: interpreter programs over shm_pipe vs pipe (observations of harness/interp.py) -------------
     _interp_leg(ctx, 12 if quick else 60)
